@@ -319,7 +319,9 @@ def boundary_case(rng):
     ctx = rng.choice(CONTEXTS)
     t = in_context(rng, ctx, g, zero_var="z")
     pts = []
-    for dx in (0, 2.0 ** -20, -(2.0 ** -20), 0.5, -0.5, 1, -1, 3.5, -3.5):
+    tiny = [2.0 ** -45, -(2.0 ** -45), 1e-13, -1e-13]
+    nxt = [math.nextafter(float(x0), math.inf) - x0, math.nextafter(float(x0), -math.inf) - x0]
+    for dx in (0, 2.0 ** -20, -(2.0 ** -20), 0.5, -0.5, 1, -1, 3.5, -3.5, rng.choice(tiny), rng.choice(nxt)):
         p = {"x": x0 + dx, "y": rng.choice([2.0, -1.5, 0.5, 3]), "z": 0}
         if rng.random() < 0.2:
             p["z"] = 0.0
